@@ -46,6 +46,7 @@ class Contract:
     abstract_for: list = field(default_factory=list) # other targets this contract also applies to (overrides)
     line: int = 0
     is_lemma: bool = False
+    quick_restricted: bool = False
 
 
 def const_eval(node, mi):
@@ -140,7 +141,13 @@ class Registry:
                             cprops = kk.get("props", cprops)
                             known = kk.get("known", [])
                             mode = kk.get("mode", "both")
-                    if b.name.startswith("requires"):
+                    if b.name.startswith("requires_quick"):
+                        # extra precondition of the quick tier only (the thorough tier proves the full contract)
+                        import os as _os
+                        if _os.environ.get("VERIF_TIER", "quick") != "thorough":
+                            c.requires.append(Clause(b.name, b, cprops, mode="prove"))
+                            c.quick_restricted = True
+                    elif b.name.startswith("requires"):
                         c.requires.append(Clause(b.name, b, cprops))
                     elif b.name.startswith("ensures"):
                         c.ensures.append(Clause(b.name[len("ensures"):].lstrip("_") or "post", b, cprops, known, mode))
@@ -189,6 +196,8 @@ class Task:
     def may_modify_value(self, ctx, fr, path, cont: Val):
         mods = self.contract.modifies
         if "*" in mods:
+            return True
+        if cont.root is not None and cont.root.startswith("param:") and cont.root[6:] in mods:
             return True
         src = cont.src
         seen = 0
@@ -489,6 +498,8 @@ def apply_contract_at_call(ctx, fr, path, f: FuncRef, contract: Contract, env, n
     where = _where(node)
     # 1. preconditions are obligations of the caller
     for cl in contract.requires:
+        if cl.mode == "prove":
+            continue
         for p, v in eval_clause(ctx, spec_mi, cl.node, env, path.fork()):
             if not ctx.spec_mode:
                 ctx.oblige(p, ctx.truthy(p, v), "requires", f"call:{contract.name}.{cl.name}", where)
@@ -648,6 +659,7 @@ def verify_contract(ctx, contract: Contract, prop: str):
         if atext and ann is None and atext not in ("Any", "object"):
             raise Unsupported(f"cannot parse parameter shape {pn}: {atext}")
         env[pn] = make_symbolic(ctx, path, pn, ann)
+        env[pn].root = f"param:{pn}"
     task.param_vals = {k: v for k, v in env.items() if k != "self"}
     # ghost state
     for g in contract.ghost:
